@@ -223,21 +223,21 @@ class GroupAdditivityScheme(Scheme):
         descriptors = defaultdict(int)
         for descriptor in self.other_descriptors:
             matches = descriptor['connectivity'].GetQueryMatches(mol)
-            matches = set([tuple(set(match)) for match in matches])
+            matches = set([frozenset(match) for match in matches])
             if matches:
                 descriptors[descriptor['name']] += len(matches)
         for descriptor in self.smiles_based_descriptors:
             matches = clean_mol.GetSubstructMatches(descriptor['smiles'],
                                                     useChirality=descriptor
                                                     ['useChirality'])
-            matches = set([tuple(set(match)) for match in matches])
+            matches = set([frozenset(match) for match in matches])
             if matches:
                 descriptors[descriptor['name']] += len(matches)
         for descriptor in self.smarts_based_descriptors:
             matches = mol.GetSubstructMatches(descriptor['smarts'],
                                               useChirality=descriptor
                                               ['useChirality'])
-            matches = set([tuple(set(match)) for match in matches])
+            matches = set([frozenset(match) for match in matches])
             if matches:
                 descriptors[descriptor['name']] += len(matches)
         # remaps
